@@ -3,7 +3,7 @@ from typing import Optional, Tuple
 import numpy as np
 
 from classy_blocks.construct.curves.curve import FunctionCurveBase
-from classy_blocks.construct.point import Point
+from classy_blocks.construct.point import AxisVector, Point
 from classy_blocks.types import NPPointType, NPVectorType, ParamCurveFuncType, PointType, VectorType
 from classy_blocks.util import functions as f
 
@@ -69,11 +69,9 @@ class CircleCurve(AnalyticCurve):
         self.origin = Point(origin)
         self.rim = Point(rim)
 
-        # normal is a unit vector and is not transformed the same
-        # as points. To keep things simple, use (and transform) 3 points
-        # and calculate normal on-the-go
-        normal = f.unit_vector(normal)
-        self.atop = Point(origin + normal)
+        # normal is a unit vector and is not transformed the same as points:
+        # it is not displaced and, giving the sense of rotation, it is reversed by a reflection
+        self._normal = AxisVector(f.unit_vector(normal))
 
         # a bound method (not a closure over this instance) so that a copy evaluates its own points
         super().__init__(self._circle_function, bounds)
@@ -83,7 +81,7 @@ class CircleCurve(AnalyticCurve):
 
     @property
     def normal(self) -> NPVectorType:
-        return self.atop.position - self.origin.position
+        return self._normal.components
 
     @property
     def center(self):
@@ -91,4 +89,4 @@ class CircleCurve(AnalyticCurve):
 
     @property
     def parts(self):
-        return [self.origin, self.rim, self.atop]
+        return [self.origin, self.rim, self._normal]
